@@ -25,7 +25,7 @@ FILES = {
     "many.txt": b"many identical new files\n", "d/x.txt": b"x\n", "d/e/y.txt": b"y\n", "d/e/f/z.txt": b"zed\n", "big.bin": bytes((i * 7 + 3) % 251 for i in range(70000)),
 }
 
-KINDS = ["new", "version", "dedup", "delete", "upgrade", "upgrade_fresh", "upgrade_new", "nested"]
+KINDS = ["new", "version", "dedup", "delete", "upgrade", "upgrade_fresh", "upgrade_new", "nested", "dupold"]
 NCOPIES = 12      # identical new files of the "manydup" scenario (C05: the keeper dedup_head picks is random per process)
 
 
@@ -65,6 +65,10 @@ class Scn:
             # in HashSet order (random per process), and the commit unlinks all the others
             return v1 + [["cp", o, s("many.txt"), "--", ("m/c%02d.txt" if n % 3 else "t%02d.txt") % n] for n in range(NCOPIES)] + \
                         [["cp", o, s("c.txt"), "--", "c.txt"]]
+        if k == "dupold":
+            # every staged file duplicates committed content: the commit unlinks them all and removes the emptied staged
+            # content directory (a kill in between, then the retry, must still give the uninterrupted result)
+            return v1 + [["cp", o, s("a2.txt"), "--", "copy/of/a.txt"], ["cp", o, s("a2.txt"), "--", "a-again.txt"]]
         if k == "delete":
             return v1 + [["rm", o, "a.txt"], ["rm", "-r", o, "d"]]
         if k == "upgrade":
@@ -721,6 +725,13 @@ def recover_after_kill(w, scn, rec, env):
         d["cat_mismatch"] = bad[:6]
         if bad:
             msgs.append("after the retried commit the ingested bytes of %d logical path(s) cannot be read back: %r" % (len(bad), bad[:4]))
+        # the retried commit installs THE new version: the object is the one the uninterrupted commit gives (inventories
+        # as parsed JSON modulo `created` and the dedup choice, content by hash, no extra or missing entry)
+        cls, det = classify(w, scn, rec, env)
+        d["class_after_retry"] = cls
+        if cls != "new" and not msgs:
+            msgs.append("the commit retried after the kill succeeded but the object is not the one of the uninterrupted commit: %s, differences %r"
+                        % (cls, det.get("diff_to_new")))
     else:
         miss = content_somewhere(w, scn, rec)
         d["missing"] = miss
